@@ -487,3 +487,10 @@ def _(root):
     sub_all(root, ('_inspect.py',), "from copy import copy\ndef _keygen(func, ignored, *args, **kwds):", "import functools\nPLACEHOLDER = getattr(functools, 'Placeholder', None)\nfrom copy import copy\ndef _keygen(func, ignored, *args, **kwds):")
     sub_all(root, ('_inspect.py',), "    _fixed = dict(zip(arg_names[:len(p_args)],p_args))\n",
             "    _fixed = dict((k,v) for (k,v) in zip(arg_names[:len(p_args)],p_args) if not (PLACEHOLDER is not None and v is PLACEHOLDER))\n")
+
+
+@V('read-zfile-streams-and-feeds-the-tail-back')
+def _(root):
+    """property-preserving: block-wise decompression with an output cap that feeds unconsumed_tail back until it is empty"""
+    sub_all(root, ('_pickle.py',), "    data = zlib.decompress(file_handle.read(), 15, length)\n",
+            "    zobj = zlib.decompressobj(15)\n    data = bytearray()\n    block = file_handle.read(2 ** 16)\n    while block:\n        while block:\n            data.extend(zobj.decompress(block, 2 ** 16))\n            block = zobj.unconsumed_tail\n        block = file_handle.read(2 ** 16)\n    data.extend(zobj.flush())\n    data = bytes(data)\n")
